@@ -515,4 +515,5 @@ func runC11(c *Ctx) {
 	runC11Shares4(c)
 	runC11Round5(c)
 	runC11HistoryComplete(c)
+	runC11SharedStopErr(c)
 }
